@@ -224,3 +224,17 @@ func noPointX(c *refcurve.Curve, start *big.Int) *big.Int {
 		x.Mod(x, c.P)
 	}
 }
+
+// flatPick chooses one element with (nearly) equal probability. rapid's integer and SampledFrom
+// generators favour small indices by design, which starves the tail of a 20-item class list when
+// a test has only ~100 cases; eight unbiased Bool draws give an index in 0..255, reduced mod len.
+func flatPick[T any](t *rapid.T, label string, items []T) T {
+	ix := 0
+	for i := 0; i < 8; i++ {
+		ix <<= 1
+		if rapid.Bool().Draw(t, label+"Bit") {
+			ix |= 1
+		}
+	}
+	return items[ix%len(items)]
+}
